@@ -20,8 +20,22 @@ import numpy as np
 from .. import fixtures, pool, tlc, tracecheck
 from ..common import seed
 
-DT = {"u1": np.uint8, "u2": np.uint16, "i8": np.int64, "f4": np.float32, "f8": np.float64}
+DT = {"u1": np.uint8, "u2": np.uint16, "i8": np.int64, "f4": np.float32, "f8": np.float64,
+      # the same in-memory types in the other byte order (arrays that come from FITS tables, memmaps of big-endian payloads ...)
+      "U2": np.dtype(">u2"), "F4": np.dtype(">f4")}
 CH = {1: [8, 16], 2: [4, 8], 4: [2, 4], 8: [1, 2, 4], 16: [1, 2], 32: [1, 2, 4]}
+
+
+def _compress(vals):
+    """Large value sequences travel as [marker, length, crc32 of every 4096-value chunk]: TLC compares the digests."""
+    import zlib
+    a = np.asarray(vals)
+    if a.size <= 5000:
+        return [int(x) for x in a]
+    if not np.all(a == np.round(a)):
+        return [-9999, int(a.size)]
+    a = a.astype(np.int64)
+    return [-7777, int(a.size)] + [int(zlib.crc32(a[i:i + 4096].tobytes()) & 0x7FFFFFFF) for i in range(0, a.size, 4096)]
 
 
 def _hdr(d, tag, nchans, nbits, **kw):
@@ -61,6 +75,8 @@ def session_job(spec):
             ev.append({"a": "prep", "size": hl})
             for (ns, dt) in s["writes"]:
                 vals = rng.integers(0, (min(top, 255) if dt == "u1" else top) + 1, size=ns * c)   # representable in both
+                if dt in ("U2", "F4") and int(vals.max(initial=0)) < 256 and vals.size:
+                    vals[0] = min(top, 258)            # a value whose two bytes differ, so that a byte-swapped dump shows
                 arr = vals.astype(DT[dt])
                 try:
                     w.cwrite(arr)
@@ -122,9 +138,9 @@ def roundtrip_job(spec):
                     back = TimeSeries.from_tim(ts.to_tim(stem + ".tim"))
                 else:
                     back = TimeSeries.from_dat(ts.to_dat(stem))
-                e["vals_in"] = [int(x) for x in vals]
+                e["vals_in"] = _compress(vals)
                 b = np.asarray(back.data)
-                e["vals_out"] = [int(x) for x in b] if np.all(b == np.round(b)) and b.size < 5000 else [-9999, int(b.size)]
+                e["vals_out"] = _compress(b)
                 e["count_reader"] = int(back.header.nsamples)
                 e.update(_meta(h, back.header))
             elif fmt in ("spec", "fft"):
@@ -139,8 +155,8 @@ def roundtrip_job(spec):
                 bz = np.asarray(back.data)
                 inter = np.empty(2 * bz.size)
                 inter[0::2], inter[1::2] = bz.real, bz.imag
-                e["vals_in"] = [int(x) for x in vals]
-                e["vals_out"] = [int(x) for x in inter] if np.all(inter == np.round(inter)) and inter.size < 5000 else [-9999, int(inter.size)]
+                e["vals_in"] = _compress(vals)
+                e["vals_out"] = _compress(inter)
                 e["n"] = 2 * n
                 e["count_reader"] = 2 * int(bz.size)
                 e.update(_meta(h, back.header))
@@ -152,8 +168,8 @@ def roundtrip_job(spec):
                 f = FilReader(blk.to_file(stem + ".fil"))
                 nsr = int(f.header.nsamples)
                 b = f.read_block(0, nsr).data if nsr > 0 else np.zeros((c, 0))
-                e["vals_in"] = [int(x) for x in vals.ravel()]
-                e["vals_out"] = [int(x) for x in np.asarray(b).ravel()] if np.all(b == np.round(b)) else [-9999]
+                e["vals_in"] = _compress(vals.ravel())
+                e["vals_out"] = _compress(np.asarray(b).ravel())
                 e["count_reader"] = nsr
                 e.update(_meta(h, f.header))
                 e["dm_ppm"] = 0  # a .fil block file has no DM clause beyond refdm; judged in C08
@@ -194,11 +210,19 @@ def run(v) -> None:
                 if fmt == "block":
                     t["nchans"] = rng.choice([1, 2, 4])
                 trips.append(t)
+    # sizes beyond the blocking thresholds a writer or reader may use internally (2^16 .. 2^19 values), not multiples of them
+    for fmt, n, nch in ([("block", 5000, 64), ("tim", 300001, 1)] if quick else
+                        [("block", 5000, 64), ("block", 20000, 16), ("block", 2049, 128), ("block", 100000, 3), ("tim", 300001, 1), ("dat", 270000, 1),
+                         ("spec", 140001, 1), ("fft", 140001, 1)]):
+        t = {"fmt": fmt, "n": n, "tsamp": 0.001, "tstart": 50000.0, "dm": 12.345}
+        if fmt == "block":
+            t["nchans"] = nch
+        trips.append(t)
     sspecs = [{"id": i, "seed": seed() * 17 + i, "sessions": sessions[i::12]} for i in range(12)]
     tspecs = [{"id": i, "seed": seed() * 19 + i, "trips": trips[i::8]} for i in range(8)]
     traces = [t for r in pool.pmap(session_job, sspecs, workers=12) for t in r]
     traces += [t for r in pool.pmap(roundtrip_job, tspecs, workers=8) for t in r]
-    native = {1: "u1", 2: "u1", 4: "u1", 8: "u1", 16: "u2", 32: "f4"}
+    native = {1: "u1", 2: "u1", 4: "u1", 8: "u1", 16: "u2", 32: "f4"}      # "U2"/"F4" (other byte order) are never native
     for t in traces:
         v.evaluations += 1
         c = t["cfg"]
